@@ -29,7 +29,7 @@ pub(crate) struct IcmpDatagram {
     pub message: icmp_utils::Message,
 }
 
-#[derive(Debug, Clone)]
+#[derive(Clone)]
 pub(crate) struct TcpConnectionMeta {
     /// Address of a VPN client made the connection request
     pub client_address: IpAddr,
@@ -42,6 +42,27 @@ pub(crate) struct TcpConnectionMeta {
     /// May contain a platform name of the VPN client and name of the application
     /// initiated the request
     pub user_agent: Option<String>,
+}
+
+/// The TLS domain of an authenticated client may start with its credentials label
+/// (`<credentials>.<host>`): it is shown scrubbed
+impl std::fmt::Debug for TcpConnectionMeta {
+    fn fmt(&self, f: &mut std::fmt::Formatter<'_>) -> std::fmt::Result {
+        f.debug_struct("TcpConnectionMeta")
+            .field("client_address", &self.client_address)
+            .field("destination", &self.destination)
+            .field("auth", &self.auth)
+            .field(
+                "tls_domain",
+                &if self.auth.is_some() {
+                    crate::net_utils::scrub_sni(self.tls_domain.clone())
+                } else {
+                    self.tls_domain.clone()
+                },
+            )
+            .field("user_agent", &self.user_agent)
+            .finish()
+    }
 }
 
 pub(crate) struct UdpMultiplexerMeta {
